@@ -83,3 +83,12 @@ Theorem fista_history_and_stop_value :
   fobjective K s = Ok (last obj PInf) /\ fcrit K s = Ok stop.
 Proof. intros F H. exact (@fsolve_history F H). Qed.
 Print Assumptions fista_history_and_stop_value.
+
+Require Import SK.Skel.MultiTaskBCD SK.Skel.MultiTaskBCDProofs.
+Theorem multitaskbcd_history :
+  forall {F} `{Num F} (cfg : @mt_config F) (K : @mt_kernels F) W_init XW_init out,
+  mt_solve cfg K W_init XW_init = Ok out ->
+  length (g_obj out) = g_iters out /\ (g_iters out <= mt_max_iter cfg)%nat /\
+  (g_obj out = nil \/ mt_objective cfg K (g_s out) = Ok (last (g_obj out) PInf)).
+Proof. intros F H. exact (@mt_solve_history F H). Qed.
+Print Assumptions multitaskbcd_history.
